@@ -35,6 +35,61 @@ pub const REPLACEMENTS: [&str; 40] = [
     "foo(AA)", "qq", "AA[0]",
 ];
 
+/// explicit forms the generated table only reaches by luck
+const EXTRA: [&str; 10] = [
+    "range(0, 3, -BB)", "range(0, 3, BB)", "range(0, nn, !BB)", "range(BB, 3, false)", "edges(GG, GG)", "union(AA, AA, AA)", "nodes(GG, 1)",
+    "neigh_edges(\"A\", GG)", "len(AA, 1)", "zip(AA, AA, AA)",
+];
+
+/// every builtin (both spellings) applied to 0..=3 arguments drawn from atoms of every kind, plus
+/// sign / negation applied to atoms of every kind: the systematic part of the replacement list
+fn generated_replacements() -> Vec<String> {
+    const FUNS: [&str; 16] = ["len", "enumerate", "enum", "edges", "E", "nodes", "V", "neigh_edges", "N", "neigh_edges_of", "N_of", "range", "zip", "union", "difference", "intersection"];
+    const ATOMS: [&str; 12] = ["AA", "GG", "SS", "nn", "BB", "NN2", "3", "\"A\"", "true", "2.5", "AA[0]", "-BB"];
+    let mut out = vec![];
+    for f in FUNS {
+        out.push(format!("{f}()"));
+        for a in ATOMS {
+            out.push(format!("{f}({a})"));
+        }
+        // two and three arguments: a diagonal slice of the atom pairs keeps the list small
+        for (i, a) in ATOMS.iter().enumerate() {
+            let b = ATOMS[(i * 5 + 1) % ATOMS.len()];
+            let c = ATOMS[(i * 7 + 2) % ATOMS.len()];
+            out.push(format!("{f}({a}, {a})"));
+            out.push(format!("{f}({a}, {b})"));
+            out.push(format!("{f}({a}, {b}, {c})"));
+            out.push(format!("{f}({a}, {a}, {a})"));
+        }
+    }
+    for a in ATOMS {
+        out.push(format!("-{a}"));
+        out.push(format!("!{a}"));
+        out.push(format!("!(-{a})"));
+        out.push(format!("(-{a} and {a})"));
+        out.push(format!("({a} or -{a})"));
+        out.push(format!("(not {a} -> {a})"));
+        out.push(format!("-(-{a})"));
+    }
+    out
+}
+
+fn all_replacements() -> &'static Vec<&'static str> {
+    static CELL: std::sync::OnceLock<Vec<&'static str>> = std::sync::OnceLock::new();
+    CELL.get_or_init(|| {
+        // the hand-written forms and the generated table get about the same weight
+        let mut v: Vec<&'static str> = vec![];
+        for _ in 0..12 {
+            v.extend(REPLACEMENTS);
+            v.extend(EXTRA);
+        }
+        for g in generated_replacements() {
+            v.push(Box::leak(g.into_boxed_str()));
+        }
+        v
+    })
+}
+
 /// constants that make the names used by the replacements exist
 const PRELUDE: [&str; 7] = [
     "let GG = Graph { A -> [B: 2, C], B -> [C], C }",
@@ -67,7 +122,7 @@ impl Case {
             Base::Literal(s) => s.clone(),
         };
         // mutate the program body only, then add the prelude (its constants are never mutated)
-        with_prelude(&apply(&base, &self.muts, &REPLACEMENTS))
+        with_prelude(&apply(&base, &self.muts, all_replacements()))
     }
 }
 
@@ -222,10 +277,11 @@ fn type_class(e: &TransformError) -> Option<String> {
 
 const PARAMS: ModelParams = ModelParams { max_vars: 3, max_cons: 3, depth: 3, inexact: false, unbounded_decl: false, objective: true };
 
-fn literals() -> Vec<String> {
+pub fn literals() -> Vec<String> {
     vec![
         "min sum(u in nodes(G)) { x_u }\ns.t.\n    x_v + sum((_, u) in neigh_edges(v)) { x_u } >= 1 for v in nodes(G)\n    sum((_, u, w) in neigh_edges_of(\"A\", G)) { w * x_u } <= len(edges(G))\nwhere\n    let G = Graph { A -> [B: 2, C], B -> [C], C }\ndefine\n    x_u as Boolean for u in nodes(G)".into(),
         "max sum((v, i) in enumerate(vals)) { v * x_i } - avg(row in M) { len(row) } * y\ns.t.\n    sum((w, i) in enum(ws)) { w * x_i } <= cap\n    x_{i + 1} <= x_i for i in 0..len(vals) - 1\n    sum((p, q) in zip(vals, ws)) { p * q * y } >= 0\n    sum(i in union(ws, vals)) { i } * y <= 100\nwhere\n    let vals = [3, 1, 2]\n    let ws = [2, 2, 3]\n    let cap = 4\n    let M = [[1, 2], [3, 4]]\ndefine\n    x_i as Boolean for i in 0..len(vals)\n    y as Real(0, 10)".into(),
+        "min sum(i in 0..k) { x_i }\ns.t.\n    x_i >= f for i in 0..k\n    x_0 <= 1 + h\n    x_1 <= 1 + -t\nwhere\n    let vals = [3, 1, 2]\n    let t = true\n    let b = t and t\n    let c = !t\n    let d = t or c\n    let e = (t -> c) <-> b\n    let k = len(vals) - 1\n    let f = vals[0] * 2\n    let h = vals[k] / 2\ndefine\n    x_i as Real(0, 10) for i in 0..k".into(),
     ]
 }
 
@@ -242,7 +298,7 @@ impl Prop for C19 {
                 model.mark_all_used = false;
                 Base::Model(TextCase { model, style, consts: vec![] })
             }),
-            2 => (0usize..2).prop_map(|i| Base::Literal(literals()[i].clone())),
+            3 => (0usize..3).prop_map(|i| Base::Literal(literals()[i].clone())),
         ];
         let m = prop_oneof![
             8 => (any::<u16>(), any::<u16>()).prop_map(|(at, with)| Mutation::Replace { at, with }),
@@ -254,8 +310,8 @@ impl Prop for C19 {
     }
     fn budget(&self, tier: Tier) -> usize {
         match tier {
-            Tier::Quick => 150_000,
-            Tier::Thorough => 1_000_000,
+            Tier::Quick => 400_000,
+            Tier::Thorough => 6_000_000,
         }
     }
     fn canon(&self, c: &Case) -> String {
@@ -290,7 +346,7 @@ impl Prop for C19 {
                         Base::Model(m) => m.text(),
                         Base::Literal(l) => l.clone(),
                     };
-                    let body = apply(&body, &case.muts, &REPLACEMENTS);
+                    let body = apply(&body, &case.muts, all_replacements());
                     let any_typed = has_any_typed_array(&body) || crate::gen::mutate::split(&body).contains(&crate::gen::mutate::Piece::Word("MM".into()));
                     let class = if any_typed { ":program-holds-any-typed-array" } else { "" };
                     Outcome::fail(
